@@ -183,8 +183,36 @@ spec fn gap_sound(z: TimeZoneRef, q: FindQuery, k: FoundDateTimeKind) -> bool {
     k is Skipped ==> exists|i: int| #[trigger] table_gap(z, q, i, k)
 }
 
-spec fn all_sound(z: TimeZoneRef, q: FindQuery, rs: Seq<FoundDateTimeKind>) -> bool {
-    forall|j: int| 0 <= j < rs.len() ==> normal_sound(z, q, #[trigger] rs[j]) && gap_sound(z, q, rs[j])
+// C05 (soundness) over a result sequence
+spec fn normals_sound(z: TimeZoneRef, q: FindQuery, rs: Seq<FoundDateTimeKind>) -> bool {
+    forall|j: int| 0 <= j < rs.len() ==> normal_sound(z, q, #[trigger] rs[j])
+}
+
+// C06 ("no gap is reported otherwise") over a result sequence
+spec fn gaps_sound(z: TimeZoneRef, q: FindQuery, rs: Seq<FoundDateTimeKind>) -> bool {
+    forall|j: int| 0 <= j < rs.len() ==> gap_sound(z, q, #[trigger] rs[j])
+}
+
+// C06: the searched time falls into the gap of table transition i (a real transition: not the coverage-ending last one)
+spec fn gap_cond(z: TimeZoneRef, q: FindQuery, i: int) -> bool {
+    let tr = z.transitions@;
+    let t = g_spec(z.leap_seconds@, tr[i].unix_leap_time as int);
+    &&& 0 <= i < tr.len()
+    &&& (i < tr.len() - 1 || *z.extra_rule is Some)
+    &&& t + type_before(z, i).ut_offset <= q_civil(q) < t + z.local_time_types@[tr[i].local_time_type_index as int].ut_offset
+}
+
+spec fn has_gap(z: TimeZoneRef, q: FindQuery, i: int, rs: Seq<FoundDateTimeKind>) -> bool {
+    exists|j: int| 0 <= j < rs.len() && #[trigger] table_gap(z, q, i, rs[j])
+}
+
+// C06 (completeness): the gap of every table transition before n that contains the searched time is reported
+spec fn gaps_found(z: TimeZoneRef, q: FindQuery, rs: Seq<FoundDateTimeKind>, n: int) -> bool {
+    forall|i: int| 0 <= i < n && #[trigger] gap_cond(z, q, i) ==> has_gap(z, q, i, rs)
+}
+
+spec fn find_query(year: i32, month: u8, month_day: u8, hour: u8, minute: u8, second: u8, nanoseconds: u32) -> FindQuery {
+    FindQuery { year, month, month_day, hour, minute, second, nanoseconds }
 }
 
 spec fn rule_is_alternate(z: TimeZoneRef) -> bool {
@@ -227,9 +255,14 @@ spec fn entry_key(k: FoundDateTimeKind) -> int {
     }
 }
 
-// C06: ascending order of instant; two valid results never share an instant (no duplicates)
-spec fn entries_ordered(rs: Seq<FoundDateTimeKind>) -> bool {
-    forall|i: int, j: int| 0 <= i < j < rs.len() ==> entry_key(#[trigger] rs[i]) <= entry_key(#[trigger] rs[j]) && (rs[i] is Normal && rs[j] is Normal ==> entry_key(rs[i]) < entry_key(rs[j]))
+// C06: ascending order of instant
+spec fn entries_ascending(rs: Seq<FoundDateTimeKind>) -> bool {
+    forall|i: int, j: int| 0 <= i < j < rs.len() ==> entry_key(#[trigger] rs[i]) <= entry_key(#[trigger] rs[j])
+}
+
+// C05: no instant is reported twice as a valid result (valid results strictly ascend)
+spec fn normals_increasing(rs: Seq<FoundDateTimeKind>) -> bool {
+    forall|i: int, j: int| 0 <= i < j < rs.len() && (#[trigger] rs[i]) is Normal && (#[trigger] rs[j]) is Normal ==> entry_key(rs[i]) < entry_key(rs[j])
 }
 
 // everything reported so far lies at or before instant b, valid results strictly before
